@@ -88,6 +88,28 @@ def r_deshare(spec):
     return "de-share", s, (lambda x, _nv=nv: tuple(x[:_nv]))
 
 
+def r_api(spec, api):
+    """The same model declared through Problem.add_variable / add_variables: every variable gets a domain slot of its own,
+    a variable that is a view of an earlier shared domain points to it (explicit dom_index / dom_offset) and its own slot is a
+    singleton placeholder."""
+    used = {d for d, _ in spec["vars"]}
+    if len(used) != len(spec["doms"]) or "decision" in spec:
+        return None
+    first = {}
+    doms, variables = [], []
+    for j, (d, off) in enumerate(spec["vars"]):
+        if d not in first:
+            first[d] = j
+            doms.append(list(spec["doms"][d]))
+        else:
+            doms.append([spec["doms"][d][0], spec["doms"][d][0]])
+        variables.append([first[d], off])
+    s = copy.deepcopy(spec)
+    s["doms"], s["vars"], s["api"] = doms, variables, api
+    s.pop("costs", None)
+    return f"api:{api}", s, lambda x: tuple(x)
+
+
 def r_permute_constraints(spec, tier):
     k = len(spec["cons"])
     if k < 2:
@@ -174,7 +196,8 @@ def r_translate(spec, t):
 
 def rewrites(spec, tier):
     out = []
-    for r in (r_deshare(spec), r_duplicate(spec), r_redundant(spec), r_translate(spec, -3), r_translate(spec, 5)):
+    for r in (r_deshare(spec), r_duplicate(spec), r_redundant(spec), r_translate(spec, -3), r_translate(spec, 5),
+              r_api(spec, "add_variable"), r_api(spec, "add_variables")):
         if r:
             out.append(r)
     out += r_permute_constraints(spec, tier)
@@ -228,7 +251,7 @@ def check_spec(acc, spec, tier):
                               "a meaning-preserving rewrite changed the set of solutions")
                 break
         # optimum (objective variable mapped through the rewrite by optimising the corresponding rewritten variable)
-        if not big and name in ("de-share", "each-constraint-twice", "add-always-true") or name.startswith("constraints"):
+        if not big and name in ("de-share", "each-constraint-twice", "add-always-true", "api:add_variable", "api:add_variables") or name.startswith("constraints"):
             for (mode, var), val in opt.items():
                 r = S.run(s2, cfgs[0], mode, var)
                 got = None if (r.abort or r.result is None) else back(r.result)[var]
